@@ -19,10 +19,50 @@ class Engine(Executor):
         name = fv.name
         if name.startswith("method."):
             return self.call_method(fv.bound, name[7:], args, kwargs, s, node)
+        ext = self.registry.get("ext:" + name)
+        if ext:
+            return self.apply_ext(ext[0], name, args, kwargs, s, node)
         h = getattr(self, "bi_" + name.replace(".", "_"), None)
         if h is None:
             raise Unsupported("builtin %s" % name, node)
         return h(args, kwargs, s, node)
+
+    def apply_ext(self, c, name, args, kwargs, s, node, recv=None):
+        """A call of a library function (or a method of a library object) that has an ASSUMED external contract:
+        positional arguments are a0, a1, ... (keywords kw_<name>, the receiver `recv`); the contract may declare the
+        result type, the exceptions the call may raise and a ghost event recording that the call happened."""
+        env = {"a%d" % i: v for i, v in enumerate(args)}
+        for k_, v_ in kwargs.items():
+            env["kw_" + k_] = v_
+        if recv is not None:
+            env["recv"] = recv
+        ann = c.opts.get("returns")
+        res = self.fresh_of_annotation(ann, "ret_%s_%d" % (name.replace(".", "_"), len(self.obligations)), s, node) if ann else Z(V.VNone)
+        env["result"] = res
+        self.assumptions.add("assumed external contract: %s (%s)" % (c.target, c.notes or "library call"))
+        out = []
+        if not self.in_spec:
+            for cls in c.raises:
+                sb = s.fork()
+                out.append((sb, Exc(cls, self.origin(node), "raised by the library call %s (its assumed contract allows it)" % name)))
+        if c.opts.get("event"):
+            saved_env, saved_fi = s.env, self.cur_fi
+            self.cur_fi = self.contract_fi
+            self.pure += 1
+            self.in_spec += 1
+            try:
+                s.env = dict(env)
+                r = self.ev(ast.parse(c.opts["event"], mode="eval").body, s)
+            finally:
+                self.pure -= 1
+                self.in_spec -= 1
+                self.cur_fi = saved_fi
+                s.env = saved_env
+            if len(r) != 1 or is_exc(r[0][1]):
+                raise Unsupported("event expression of %s" % c.name, node)
+            s.ghost = dict(s.ghost)
+            s.ghost["events"] = list(s.ghost.get("events", [])) + [r[0][1]]
+        return [(s, res)] + out
 
     # -- conversions ---------------------------------------------------------
     def bi_str(self, args, kwargs, s, node):
@@ -465,8 +505,13 @@ class Engine(Executor):
                         out.append((s3, Z(V.VBool(f(V.get_s(a.t), sv)), "bool")))
             elif meth in ("lower", "upper", "title"):
                 out.append((s2, Z(V.VStr(self.case_fn(meth, sv, s2)), "str")))
-            elif meth in ("strip", "lstrip", "rstrip"):
-                r = V.fresh("strip", V.S)
+            elif meth in ("strip", "lstrip", "rstrip") and not args:
+                # deterministic: two calls on one text (the same term, in this state and its successors) agree; a
+                # constant per text keeps the formulas small (a function application of a large term is costly)
+                fk = ("strfn", meth, z3.simplify(sv).sexpr())
+                if fk not in s2.flags:
+                    s2.flags[fk] = V.fresh(meth, V.S)
+                r = s2.flags[fk]
                 # facts: the result is a substring; empty iff the text is all whitespace (only what callers need)
                 s2.assume(z3.Contains(sv, r))
                 s2.assume(z3.Implies(sv == z3.StringVal(""), r == z3.StringVal("")))
@@ -567,6 +612,8 @@ class Engine(Executor):
         owners = [c for c in self.classes_with_attr(meth) if self.P.find_class(c) is not None and meth in self.P.find_class(c).methods]
         if isinstance(recv.hint, tuple) and recv.hint[0] == "obj" and recv.hint[1] in owners:
             owners = [recv.hint[1]]
+        if not owners and self.registry.get("extmethod:" + meth):
+            return self.apply_ext(self.registry["extmethod:" + meth][0], "method." + meth, args, kwargs, s, node, recv=recv)
         if not owners and meth in ("append", "add") and len(args) == 1 and not kwargs:
             return self.heap_container_method(recv, meth, args[0], s, node)
         if not owners and meth in ("keys", "values", "items") and not args and not kwargs:
@@ -1199,8 +1246,8 @@ class Engine(Executor):
                         z.hint = h
                     return z
                 return z3.Length(term), el, []
-            if isinstance(box, AbsBox) and box.elem_ann is not None and box.length is not None:
-                ann = box.elem_ann
+            if isinstance(box, AbsBox) and box.length is not None:
+                ann = box.elem_ann          # None: elements of an unknown type
                 return box.length, (lambda k, s_: self.fresh_of_annotation(ann, "elem_%s" % tag, s_, stmt)), []
         raise Unsupported("iteration over %s" % type(it).__name__, stmt)
 
